@@ -145,6 +145,19 @@ def check_shapes_and_stream(d, n, rec, what, Ns=(1, 3), scipy_rvs=False):
             v1, v2, v3 = s1.samples, s2.samples, s3.samples
         require(np.array_equal(v1, v2), f"{what}: draws are not a deterministic function of the generator state")
         require(not np.array_equal(v1, v3), f"{what}: different generator states gave identical draws")
+    # the newer numpy Generator, where the family takes it at all (several call rng.randn and refuse it): same guarantees
+    refused, g1 = refuses(lambda: d.sample(2, rng=np.random.default_rng(5)))
+    if not refused:
+        st0 = np.random.get_state()
+        g1 = np.asarray(d.sample(2, rng=np.random.default_rng(5)).samples)
+        g2 = np.asarray(d.sample(2, rng=np.random.default_rng(5)).samples)
+        g3 = np.asarray(d.sample(2, rng=np.random.default_rng(6)).samples)
+        st1 = np.random.get_state()
+        require(st0[0] == st1[0] and np.array_equal(st0[1], st1[1]) and st0[2:] == st1[2:],
+                f"{what}: sampling with an explicit numpy Generator changed the global random state")
+        require(np.array_equal(g1, g2), f"{what}: draws are not a deterministic function of the numpy Generator's state")
+        require(not np.array_equal(g1, g3), f"{what}: differently seeded numpy Generators gave identical draws (generator ignored?)")
+        rec.count("generator_supported:" + what)
     # global stream: seeded global state reproduces, and differs from the explicit generator only through the stream
     np.random.seed(11)
     g1 = np.asarray(d.sample(2).samples)
@@ -421,7 +434,51 @@ def resample_cases(draw, tier="quick"):
     return c
 
 
+# ----------------------------------------------------------------------------- N draws with N equal to the dimension
+
+@st.composite
+def square_cases(draw, tier="quick"):
+    n = draw(st.integers(2, 5))
+    return {"fam": draw(st.sampled_from(["Normal", "Laplace", "Uniform", "Gamma", "Beta", "Lognormal", "Gaussian", "InverseGamma"])), "n": n,
+            "N": draw(st.sampled_from([n, n, n + 1, max(2, n - 1)])), "seed": draw(st.integers(0, 10 ** 6))}
+
+
+def run_square(c, rec):
+    """draw j is column j, component i is row i - also when the number of draws equals the dimension (the one case where a
+    transposed array has the right shape). Components are given well separated ranges, so a single number tells which
+    component it belongs to."""
+    import cuqi
+    D = cuqi.distribution
+    n, N, fam = c["n"], c["N"], c["fam"]
+    if rec.classify({"fam": fam, "square": N == n}, N == n):
+        return
+    k = np.arange(n, dtype=float)
+    if fam == "Normal":
+        d, lo, hi = D.Normal(100.0 * k, 1.0), 100.0 * k - 12, 100.0 * k + 12
+    elif fam == "Laplace":
+        d, lo, hi = D.Laplace(100.0 * k, 0.5), 100.0 * k - 40, 100.0 * k + 40
+    elif fam == "Uniform":
+        d, lo, hi = D.Uniform(10.0 * k, 10.0 * k + 1.0), 10.0 * k, 10.0 * k + 1.0
+    elif fam == "Gamma":
+        d, lo, hi = D.Gamma(shape=400.0 * np.ones(n), rate=400.0 / (10.0 ** k)), 0.5 * 10.0 ** k, 2.0 * 10.0 ** k
+    elif fam == "InverseGamma":
+        d, lo, hi = D.InverseGamma(shape=400.0 * np.ones(n), location=1000.0 * k, scale=400.0 * np.ones(n)), 1000.0 * k + 0.5, 1000.0 * k + 2.0
+    elif fam == "Beta":
+        d, lo, hi = D.Beta(alpha=1.0 + 3000.0 * (k + 1) / (n + 1), beta=1.0 + 3000.0 * (n - k) / (n + 1)), (k + 1) / (n + 1) - 0.08, (k + 1) / (n + 1) + 0.08
+    elif fam == "Lognormal":
+        d, lo, hi = D.Lognormal(5.0 * k, 0.01 * np.eye(n)), np.exp(5.0 * k - 1.5), np.exp(5.0 * k + 1.5)
+    else:
+        d, lo, hi = D.Gaussian(100.0 * k, np.diag(np.ones(n))), 100.0 * k - 12, 100.0 * k + 12
+    S = must(lambda: d.sample(N, rng=np.random.RandomState(c["seed"])), f"{fam}.sample({N})")
+    X = np.asarray(S.samples, dtype=float)
+    require(X.shape == (n, N), f"{fam}: {N} draws of a {n}-dimensional distribution are not an array with one column per draw", shape=X.shape)
+    inside = (X >= lo[:, None]) & (X <= hi[:, None])
+    require(bool(np.all(inside)), f"{fam}: with N = {N} draws of dimension {n} an entry of row i does not belong to component i (components and draws exchanged?)",
+            samples=X, lower=lo, upper=hi)
+
+
 SUBCHECKS = [
+    SubCheck("C05/square_batch", run_square, strategy=square_cases, n={"quick": 300, "thorough": 3000}, shards={"quick": 2, "thorough": 4}),
     SubCheck("C05/resample_after_reassign", run_resample, strategy=resample_cases, n={"quick": 400, "thorough": 8000}, shards={"quick": 4, "thorough": 16}),
     SubCheck("C05/gaussian_affine_law", run_gauss, strategy=c04.gauss_cases, n={"quick": 600, "thorough": 10000},
              shards={"quick": 4, "thorough": 16}),
